@@ -433,9 +433,10 @@ def _sentinel(ctx, E, shared, validated):
   res_seen = []                    # (kind, wind amplitude, size / total tendency, size / natural scale, mismatch)
   div_margin, q_clip_err = np.inf, 0.0   # side conditions of T4.3/T4.4 on the generated humidity fields
 
-  def totals(cls, eq_args, tref, st, one, iva=True):
+  def totals(cls, eq_args, tref, st, one, iva=True, vmm=None):
     grid, coords, specs, oro = eq_args
-    eq = E.CL[cls](np.asarray(tref), jnp.asarray(oro), coords, specs, include_vertical_advection=iva)
+    eq = E.CL[cls](np.asarray(tref), jnp.asarray(oro), coords, specs, include_vertical_advection=iva,
+                   vertical_matmul_method=vmm)
     tv = st['T'] - np.asarray(tref)[:, None, None] * one
     kw = dict(vorticity=jnp.asarray(st['z']), divergence=jnp.asarray(st['d']), temperature_variation=jnp.asarray(tv),
               log_surface_pressure=jnp.asarray(st['p']), tracers={k: jnp.asarray(v) for k, v in st['tr'].items()})
@@ -449,6 +450,9 @@ def _sentinel(ctx, E, shared, validated):
   amps = [float(rng.choice([0.3, 1.0]))] + [float(a) for a in rng.permutation([1e-3, 30.0, 1e3, 1.0, 0.3])]
   for si, (spec, n, lkind) in enumerate(_scenarios(ctx, shared)):
     use_si = bool(si % 2 == 0)
+    # the implicit half has two vertical-product strategies (dense matrices / cumulative sums; the latter is what runs
+    # under vertical sharding): the split must not depend on the reference profile with either of them
+    vmm = ['sparse', None, 'sparse', 'dense'][si % 4]
     radius = 1.0 if use_si else float(rng.choice([1.0, 1.3]))
     grid, kind = E.grid(spec, radius)
     b, lkind = dinoutil.random_boundaries(rng, n, lkind)
@@ -491,8 +495,8 @@ def _sentinel(ctx, E, shared, validated):
                specs='from_si' if use_si else dict(R=specs.R, R_vapor=specs.R_vapor, Cp_vapor=specs.Cp_vapor,
                                                    kappa=specs.kappa, omega=specs.angular_velocity, g=specs.g),
                T0=t0, amplitude=amp, T_amplitude=t_amp, lnps_amplitude=p_amp, q=qs, condensate=cscale,
-               trefs=[t.tolist() for t in trefs], seed=ctx.seed)
-    for k in (f'search-grid={kind}', f'search-layers={n}', f'search-levels={lkind}', f'search-amplitude={amp:g}',
+               trefs=[t.tolist() for t in trefs], seed=ctx.seed, vertical_matmul_method=vmm)
+    for k in (f'search-vertical-matmul={vmm}', f'search-grid={kind}', f'search-layers={n}', f'search-levels={lkind}', f'search-amplitude={amp:g}',
               f'search-orography={orog}', f'search-specs={"si" if use_si else "random"}'):
       ctx.dist[k] += 1
 
@@ -506,7 +510,7 @@ def _sentinel(ctx, E, shared, validated):
       ctx.dist[f'search-class={name}'] += 1
       tots = []
       with ctx.impl(f'tref-dependence-exception:{name}', cinp):
-        tots = [totals(cls, eq_args, t, s, one) for t in trefs]
+        tots = [totals(cls, eq_args, t, s, one, vmm=vmm) for t in trefs]
       if len(tots) != len(trefs):
         continue
       dep = {}
